@@ -7,6 +7,10 @@ package main
 import (
 	"encoding/json"
 	"fmt"
+	"go/ast"
+	"go/parser"
+	"go/token"
+	"os"
 	"regexp"
 	"sort"
 	"strconv"
@@ -14,6 +18,7 @@ import (
 
 	dtpb "github.com/google/fhir/go/proto/google/fhir/proto/r4/core/datatypes_go_proto"
 	bcrpb "github.com/google/fhir/go/proto/google/fhir/proto/r4/core/resources/bundle_and_contained_resource_go_proto"
+	opb "github.com/google/fhir/go/proto/google/fhir/proto/r4/core/resources/observation_go_proto"
 	ppb "github.com/google/fhir/go/proto/google/fhir/proto/r4/core/resources/patient_go_proto"
 	"github.com/verily-src/fhirpath-go/fhirpath"
 	"github.com/verily-src/fhirpath-go/fhirpath/system"
@@ -120,6 +125,53 @@ func runC20(c *Ctx) {
 		c.Law(bundle.UnwrapEntry(e) == res, "C20/entry-unwrap", "unwrapping a bundle entry returns the very same resource", n, "")
 		all = append(all, res)
 	}
+	// the exported type constants: each denotes the resource type it is named after (read from the source of
+	// internal/resource/consts.go, which is what programs using the package are written against)
+	{
+		repo := os.Getenv("VERIF_REPO")
+		if repo == "" {
+			repo = "/repo"
+		}
+		fset := token.NewFileSet()
+		f, err := parser.ParseFile(fset, repo+"/internal/resource/consts.go", nil, 0)
+		if err != nil {
+			c.meta.Notes = append(c.meta.Notes, "consts.go not read: "+err.Error())
+		} else {
+			n := 0
+			for _, d := range f.Decls {
+				gd, ok := d.(*ast.GenDecl)
+				if !ok || gd.Tok != token.CONST {
+					continue
+				}
+				for _, sp := range gd.Specs {
+					vs, ok := sp.(*ast.ValueSpec)
+					if !ok || len(vs.Names) != 1 || len(vs.Values) != 1 {
+						continue
+					}
+					if id, ok := vs.Type.(*ast.Ident); !ok || id.Name != "Type" {
+						continue
+					}
+					lit, ok := vs.Values[0].(*ast.BasicLit)
+					if !ok || lit.Kind != token.STRING {
+						continue
+					}
+					val, _ := strconv.Unquote(lit.Value)
+					name := vs.Names[0].Name
+					n++
+					made := "?"
+					_, _, _ = safeErr(func() error {
+						if r := resource.Type(val).New(); r != nil {
+							made = string(r.ProtoReflect().Descriptor().Name())
+						}
+						return nil
+					})
+					c.Law(val == name && made == name, "C20/create-by-name", "a new instance of every R4 resource type can be created by name and reports that type", "the constant resource."+name, fmt.Sprintf("has the value %q; Type.New() makes a %s", val, made))
+				}
+			}
+			c.Observe(fmt.Sprintf("type constants of consts.go: %d", n), true)
+			c.Law(n >= cr.Oneofs().Get(0).Fields().Len(), "C20/create-by-name", "a new instance of every R4 resource type can be created by name and reports that type", "constants of consts.go", fmt.Sprintf("%d constants for %d resource types", n, cr.Oneofs().Get(0).Fields().Len()))
+		}
+	}
 	// bundle order
 	for trial := 0; trial < 20; trial++ {
 		n := c.rng.Intn(12)
@@ -151,6 +203,35 @@ func runC20(c *Ctx) {
 			}
 		}
 		c.Law(ok, "C20/bundle-order", "a bundle unwraps to its entries' resources in order", fmt.Sprint(n, " entries"), "")
+		// the map form is the same list split by resource type, each part in entry order
+		hasNil := false
+		for _, p := range picked {
+			hasNil = hasNil || p == nil
+		}
+		if !hasNil {
+			c.Law(unwrapMapIsPartition(b, picked), "C20/bundle-order", "a bundle unwraps to its entries' resources in order (UnwrapMap: the same resources by type, each list in entry order)", fmt.Sprint(n, " entries"), "")
+		}
+	}
+	// several versions of one resource (a history bundle) and the same resource twice: every entry is kept
+	{
+		mk := func(id, v string) fhir.Resource {
+			return &ppb.Patient{Id: fhir.ID(id), Meta: &dtpb.Meta{VersionId: fhir.ID(v)}}
+		}
+		p1, p2, p3, q := mk("123", "1"), mk("123", "2"), mk("123", "3"), mk("456", "1")
+		o := &opb.Observation{Id: fhir.ID("123")}
+		picked := []fhir.Resource{p1, o, p2, q, p3, p1}
+		var entries []*bcrpb.Bundle_Entry
+		for _, r := range picked {
+			entries = append(entries, bundle.NewCollectionEntry(r))
+		}
+		b := bundle.NewCollection(bundle.WithEntries(entries...))
+		got := bundle.Unwrap(b)
+		ok := len(got) == len(picked)
+		for i := 0; ok && i < len(got); i++ {
+			ok = got[i] == picked[i]
+		}
+		c.Law(ok, "C20/bundle-order", "a bundle unwraps to its entries' resources in order", "history bundle: Patient/123 v1, Observation/123, Patient/123 v2, Patient/456, Patient/123 v3, Patient/123 v1 again", "")
+		c.Law(unwrapMapIsPartition(b, picked), "C20/bundle-order", "a bundle unwraps to its entries' resources in order (UnwrapMap: the same resources by type, each list in entry order)", "history bundle: Patient/123 v1, Observation/123, Patient/123 v2, Patient/456, Patient/123 v3, Patient/123 v1 again", "")
 	}
 	// ---- extension value types
 	vx := (&dtpb.Extension_ValueX{}).ProtoReflect().Descriptor().Oneofs().Get(0)
@@ -463,3 +544,31 @@ var choiceSuffixes = func() []string {
 	}
 	return out
 }()
+
+func unwrapMapIsPartition(b *bcrpb.Bundle, picked []fhir.Resource) bool {
+	var m map[resource.Type][]fhir.Resource
+	_, pan, _ := safeErr(func() error { m = bundle.UnwrapMap(b); return nil })
+	if pan {
+		return false
+	}
+	want := map[resource.Type][]fhir.Resource{}
+	for _, r := range picked {
+		t := resource.TypeOf(r)
+		want[t] = append(want[t], r)
+	}
+	if len(m) != len(want) {
+		return false
+	}
+	for t, ws := range want {
+		gs := m[t]
+		if len(gs) != len(ws) {
+			return false
+		}
+		for i := range ws {
+			if gs[i] != ws[i] {
+				return false
+			}
+		}
+	}
+	return true
+}
